@@ -139,6 +139,47 @@ def make_layout(rng, chain, coin, assign="contiguous", nfiles=3, gaps="none", nu
                 header_only=header_only), desc, pl_index
 
 
+def add_harmless_competitors(rng, chain, coin, kw, count=3):
+    """Adds index records that must never be delivered today: never-connected stale siblings WITH data whose hash sorts
+    BEFORE the active block's (so the active record, inserted later, wins), stored as the physically last block of a
+    blk file; failed blocks with data; header-only records. Returns the number of records added."""
+    from .datadir import VALID_TRANSACTIONS, HAVE_DATA, FAILED_VALID, VALID_TREE
+    coin = COINS[coin] if isinstance(coin, str) else coin
+    byh = dict(chain)
+    heights = [h for h, _ in chain[1:]]
+    if not heights:
+        return 0
+    added = 0
+    files = sorted(kw["order"])
+    for h in rng.sample(heights, min(count, len(heights))):
+        cb = ChainBuilder(rng, coin, start_height=h)
+        cb.prev = byh[h - 1].hash if (h - 1) in byh else ZERO32
+        b = cb.add_block(n_tx=rng.randint(0, 1), version=1)
+        kind = rng.choice(["stale_before", "stale_before", "failed"])
+        if kind == "stale_before":
+            for _ in range(200000):
+                if b.hash < byh[h].hash:
+                    break
+                b.nonce = (b.nonce + 1) & 0xFFFFFFFF
+                b.invalidate()
+            else:
+                continue
+            status = VALID_TRANSACTIONS | HAVE_DATA
+        else:
+            status = VALID_TRANSACTIONS | HAVE_DATA | FAILED_VALID
+        f = rng.choice(files)
+        kw["placements"].append(Placement(b, h, file=f, status=status))
+        kw["order"][f].append(len(kw["placements"]) - 1)      # physically last in its file
+        added += 1
+    # a header-only record beyond the tip and one at an occupied height
+    tip = chain[-1][0]
+    for hh, prev in ((tip + 1, byh[tip].hash), (heights[0], byh[heights[0] - 1].hash if (heights[0] - 1) in byh else ZERO32)):
+        hb = Block(rng.choice([1, 2, 4, 0x20000000]), prev, rng.getrandbits(31), 0x1D00FFFF, rng.getrandbits(32), [], merkle=rbytes(rng, 32))
+        kw["header_only"].append(HeaderOnly(hb, hh, VALID_TREE, 0))
+        added += 1
+    return added
+
+
 def layout_chain(rng, coin, nblocks=12, big_every=5, start_height=0):
     """Chain with unique blocks of varied sizes (some larger than the 32 KiB read buffer)."""
     from .chain import TxOut
